@@ -401,7 +401,7 @@ fn call_snf<R: HR>(a: &M<R>, flags: [bool; 4], secs: u64) -> Option<Option<Out<R
 fn wide_run<R: HR, W: HR>(a: &M<R>, f: [bool; 4], widen: impl Fn(&R) -> W, fits: impl Fn(&W) -> bool) -> Option<bool>
 where for<'a> &'a R: EucRingOps<R>, for<'a> &'a W: EucRingOps<W> {
     let aw = M { m: a.m, n: a.n, a: a.a.iter().map(|r| r.iter().map(|x| widen(x)).collect()).collect() };
-    match call_snf::<W>(&aw, f, 30) {
+    match call_snf::<W>(&aw, f, 60) {
         Some(Some(w)) => Some(w.d.a.iter().flatten().all(|x| fits(x)) && w.t.iter().flatten().all(|t| t.a.iter().flatten().all(|x| fits(x)))),
         _ => None,
     }
@@ -432,9 +432,9 @@ where for<'a> &'a R: EucRingOps<R> {
         let inp = input(f);
         s.count(&format!("flags.{}", flags_str(f)));
         let nontrivial = m > 0 && n > 0 && a.a.iter().any(|r| r.iter().any(|x| !x.is_zero()));
-        let out = match call_snf(a, f, 30) {
+        let out = match call_snf(a, f, 60) {
             None => {
-                s.oracle(false, "snf terminates (no answer within 30 s)", &inp, "timeout");
+                s.oracle(false, "snf terminates (no answer within 60 s)", &inp, "timeout");
                 s.count("outcome.timeout");
                 s.eval_only(&inp, nontrivial);
                 continue;
